@@ -1,7 +1,9 @@
 #!/bin/sh
-# dev helper: regenerate the overlay and build the worker (flavour $1, default plain)
+# dev helper: ./dev.sh <ID> [flavour] builds build/worker-<flavour>-<ID> containing only that check
 set -e
 export GOFLAGS=-mod=mod GOPROXY=off GOSUMDB=off GOTOOLCHAIN=local
-fl=${1:-plain}
-ov=$(/verif/pmc overlay --flavour $fl)
-cd /repo && go build -overlay $ov -o /verif/build/worker-$fl ./verifh/cmd/worker
+id=$1
+fl=${2:-plain}
+lc=$(echo $id | tr A-Z a-z)
+ov=$(/verif/pmc overlay --flavour $fl --solo $id)
+cd /repo && go build -overlay $ov -tags verif_$lc -o /verif/build/worker-$fl-$id ./verifh/cmd/worker
